@@ -200,8 +200,29 @@ fn exec_body(workers: usize, second_round: bool) {
     obs(format!("done={}", done.load(StdOrdering::SeqCst)));
 }
 
+/// One task wakes `n` parked tasks in a single poll (n larger than the local
+/// queue, so the overflow path into the injector is taken): every one of them
+/// must run to completion before `run` returns.
+fn exec_many_wakes_body(workers: usize, n: usize) {
+    let mut ex = Executor::new_multi_threaded(workers, SimulationContext {}, Signal::new());
+    let done = Arc::new(AtomicUsize::new(0));
+    let slots: Vec<Arc<StdMutex<Option<Waker>>>> = (0..n + 1).map(|_| Arc::new(StdMutex::new(None))).collect();
+    for i in 1..=n {
+        ex.spawn_and_forget(Relay { polled: false, wake: vec![], me: slots[i].clone(), done: done.clone(), wait_for_wake: true });
+    }
+    ex.run(Duration::ZERO).unwrap();
+    assert_eq!(done.load(StdOrdering::SeqCst), 0);
+    ex.spawn_and_forget(Relay { polled: false, wake: slots[1..].to_vec(), me: slots[0].clone(), done: done.clone(), wait_for_wake: false });
+    ex.run(Duration::ZERO).unwrap();
+    let d = done.load(StdOrdering::SeqCst);
+    assert_eq!(d, n + 1, "[quiescence] run() returned Ok after {} of {} woken tasks completed (tasks were lost)", d, n + 1);
+    drop(ex);
+    obs(format!("done={}", d));
+}
+
 pub fn exec_items() -> Vec<Item> {
     vec![
+        Item::new("exec/2w/600wakes", 5_000_000, 0, 0, || exec_many_wakes_body(2, 600)).caps(50, 2_000),
         Item::new("exec/2w/fanout", 50_000, 3, 4, || exec_body(2, false)).caps(300_000, 30_000_000),
         Item::new("exec/2w/fanout+round2", 50_000, 2, 3, || exec_body(2, true)).caps(300_000, 30_000_000),
         Item::new("exec/3w/fanout", 50_000, 2, 3, || exec_body(3, false)).caps(300_000, 30_000_000),
